@@ -209,14 +209,25 @@ impl<K, V> DoubleEndedIterator for TakingIterator<K, V> {
 /// [LruCache::drain].
 pub struct Drain<'a, K, V, S> {
     iterator: TakingIterator<K, V>,
-    cache: &'a mut LruCache<K, V, S>
+    _cache: &'a mut LruCache<K, V, S>
 }
 
 impl<'a, K, V, S> Drain<'a, K, V, S> {
     pub(crate) fn new(cache: &'a mut LruCache<K, V, S>) -> Drain<'a, K, V, S> {
+        let iterator = TakingIterator::new(cache);
+
+        // Mark the cache as empty right away (the buckets stay allocated and
+        // untouched while it is borrowed), so that leaking the Drain can only
+        // leak entries and never leaves moved-out entries in the cache.
+
+        cache.seal.get_mut().next = cache.seal;
+        cache.seal.get_mut().prev = cache.seal;
+        cache.current_size = 0;
+        cache.table.clear_no_drop();
+
         Drain {
-            iterator: TakingIterator::new(cache),
-            cache
+            iterator,
+            _cache: cache
         }
     }
 }
@@ -240,14 +251,6 @@ impl<'a, K, V, S> Drop for Drain<'a, K, V, S> {
         // Drop all allocated memory of the remaining elements.
 
         for _ in self.by_ref() { }
-
-        // Set the cache as empty.
-
-        self.cache.seal.get_mut().next = self.cache.seal;
-        self.cache.seal.get_mut().prev = self.cache.seal;
-
-        self.cache.current_size = 0;
-        self.cache.table.clear_no_drop();
     }
 }
 
